@@ -1,15 +1,16 @@
 import os
-KERNELS = {'C05_slice': dict(src='kernels/C05_slice.cpp', flags=['-DNDEBUG'])}
+KERNELS = {'C05_slice': dict(src='kernels/C05_slice.cpp', flags=['-DNDEBUG']), 'C05_fam': dict(src='kernels/C05_fam.cpp', flags=['-DNDEBUG']),
+           'C05_view': dict(src='kernels/C05_view.cpp', flags=['-DNDEBUG'])}
 # Open finding classes (regions are predicates in harnesses/C05.c). C05_OPEN=<class>[,<class>] drops the exclusion(s) again
 # (used to regenerate the witnesses: ./check C05 --only packed1 with C05_OPEN=EMPTY prints the VIOLATION + replay file).
 _OPEN = set(x for x in os.environ.get('C05_OPEN', '').split(',') if x)
 def _kf(*classes):
     return {'KF_C05_' + c: 1 for c in classes if c not in _OPEN}
 PATS = {  # name: (has start, has stop, has step, finding classes that intersect the pattern's domain)
- 'nnn': (0, 0, 0, ()), 'inn': (1, 0, 0, ('CLAMP', 'NEGSTART')), 'nin': (0, 1, 0, ('EMPTY', 'CLAMP')), 'iin': (1, 1, 0, ('EMPTY', 'CLAMP', 'NEGSTART')),
- 'nni': (0, 0, 1, ()), 'ini': (1, 0, 1, ('EMPTY', 'CLAMP', 'NEGSTART')), 'nii': (0, 1, 1, ('EMPTY', 'CLAMP', 'NEGSTEP')),
+ 'nnn': (0, 0, 0, ()), 'inn': (1, 0, 0, ('CLAMP', 'NEGSTART')), 'nin': (0, 1, 0, ('CLAMP',)), 'iin': (1, 1, 0, ('EMPTY', 'CLAMP', 'NEGSTART')),
+ 'nni': (0, 0, 1, ()), 'ini': (1, 0, 1, ('CLAMP', 'NEGSTART')), 'nii': (0, 1, 1, ('CLAMP', 'NEGSTEP')),
  'iii': (1, 1, 1, ('EMPTY', 'CLAMP', 'NEGSTEP', 'NEGSTART')),
- 'nn': (0, 0, 0, ()), 'in': (1, 0, 0, ('CLAMP', 'NEGSTART')), 'ni': (0, 1, 0, ('EMPTY', 'CLAMP')), 'ii': (1, 1, 0, ('EMPTY', 'CLAMP', 'NEGSTART')),
+ 'nn': (0, 0, 0, ()), 'in': (1, 0, 0, ('CLAMP', 'NEGSTART')), 'ni': (0, 1, 0, ('CLAMP',)), 'ii': (1, 1, 0, ('EMPTY', 'CLAMP', 'NEGSTART')),
 }
 def _pat(p, maxn=6, **kw):
     hs, hp, he, kf = PATS[p]
@@ -22,6 +23,7 @@ HARNESSES = [
 ]
 FAMS = {2: ['e', 'es', 'se', 'ei', 'ie', 'is', 'si', 'ss', 'ses', 'ii'],
         3: ['e', 'se', 'es', 'ses', 'ie', 'ei', 'ies', 'sei', 'iei', 'ess', 'sse', 'sis', 'isi', 'iis', 'sss', 'sess']}
+SHORT = [(2, 's'), (2, 'i'), (3, 'ss'), (3, 'is')]
 ALLKF = ('EMPTY', 'CLAMP', 'NEGSTEP', 'NEGSTART')
 def _fam(d, f, maxf=4, **kw):
     c = {'FAM': f, 'DIM': d, 'MAXF': maxf}
@@ -37,16 +39,79 @@ def all_fams(dim):
             if ne <= 1 and ((ne == 1 and nn <= dim) or (ne == 0 and nn == dim)): out.append(''.join(t))
     return out
 HARNESSES += [
- dict(name='fam', src='harnesses/C05.c', func='h_fam', kernels=['C05_slice'], unwind=6,
+ dict(name='fam', src='harnesses/C05.c', func='h_fam', kernels=['C05_fam'], unwind=6,
       bounds='packed index::shape_slice / index::slice on 2 and 3 axes; the family (which items are integers i, slices s = (int,int,int), the ellipsis e) is the per-query constant FAM; '
              'every extent 1..MAXF, every slice start/stop in [-(n+2),n+2], step in {-3..3}\\{0}, every integer in [-n,n-1], every result index: symbolic',
-      quick=[_fam(d, f) for d in (2, 3) for f in FAMS[d]], thorough=[_fam(d, f, 6) for d in (2, 3) for f in FAMS[d]]),
- dict(name='dyn', src='harnesses/C05.c', func='h_dyn', kernels=['C05_slice'], unwind=6,
+      quick=[_fam(d, f) for d in (2, 3) for f in FAMS[d]] + ([_fam(d, f) for d, f in SHORT] if 'SHORT' in _OPEN else []), thorough=[_fam(d, f, 6) for d in (2, 3) for f in FAMS[d]]),
+ dict(name='dyn', src='harnesses/C05.c', func='h_dyn', kernels=['C05_fam'], unwind=6,
       bounds='index::shape_dynamic_slice / dynamic_slice, ONE instantiation per dim: list of either<int, either<array<int,3>, ellipsis>> (LISTK=_sv: bounded static_vector list, else std::vector); '
              'the item kinds are run-time values of the kernel, enumerated exhaustively as the per-query constant FAM (every sequence of i/s/e with at most one e that addresses DIM axes: 21 for 2 axes, 57 for 3); values as in fam',
-      quick=[_fam(2, f, 3, LISTK='_sv', CONSTK=1) for f in all_fams(2)] + [_fam(3, f, 3, LISTK='_sv', CONSTK=1) for f in all_fams(3)[::5]],
+      quick=[_fam(2, f, 3, LISTK='_sv', CONSTK=1) for f in all_fams(2)] + [_fam(3, f, 3, LISTK='_sv', CONSTK=1) for f in all_fams(3)[3::8]],
       thorough=[_fam(d, f, 4, LISTK='_sv', CONSTK=1) for d in (2, 3) for f in all_fams(d)] + [_fam(2, f, 3, CONSTK=1) for f in all_fams(2)]),
 ]
+HARNESSES += [
+ dict(name='short', src='harnesses/C05.c', func='h_dyn', kernels=['C05_fam'], unwind=6,
+      bounds='dynamic encoding, item kinds = per-query constant FAM (one item per axis, no ellipsis), but only the first ni items are passed, ni symbolic in 1..DIM: NumPy takes the unaddressed axes whole',
+      quick=[dict(_fam(d, f, 3, LISTK='_sv', CONSTK=1, SHORTNS=1), **_kf('SHORT')) for d, f in ((2, 'ss'), (2, 'is'), (3, 'sis'), (3, 'iss'))]),
+]
+HARNESSES += [
+ dict(name='famsame', src='harnesses/C05.c', func='h_famsame', kernels=['C05_fam'], unwind=6,
+      bounds='differential, NO finding region excluded: packed instantiation FAM vs the dynamic encoding (static_vector of either) with the same item kinds: same dim, extents and source index; '
+             'extents 1..MAXF, every part in [-(MAXF+2), MAXF+2] (steps != 0), integers unconstrained in that range, result index symbolic',
+      quick=[{'FAM': f, 'DIM': d, 'MAXF': 3, 'LISTK': '_sv'} for d in (2, 3) for f in FAMS[d] if f != 'ii'][::2],
+      thorough=[{'FAM': f, 'DIM': d, 'MAXF': 4, 'LISTK': '_sv'} for d in (2, 3) for f in FAMS[d] if f != 'ii']),
+]
+def _same(a_s, a_i, b_s, b_i, maxn=6): return {'DAS': a_s, 'DAI': a_i, 'DBS': b_s, 'DBI': b_i, 'MAXN': maxn}
+_SAME = [('k_shape1_%s' % p, 'k_index1_%s' % p, 'k_dshape1_%s' % p, 'k_dindex1_%s' % p) for p in ('nnn', 'inn', 'nin', 'iin', 'nni', 'ini', 'nii', 'iii')] + [
+    ('k_shape1_iii', 'k_index1_iii', 'k_dshape1_a3', 'k_dindex1_a3'), ('k_shape1_ii', 'k_index1_ii', 'k_dshape1_a2', 'k_dindex1_a2'), ('k_shape1_ni', 'k_index1_ni', 'k_dshape1_ni', 'k_dindex1_ni'),
+    ('k_shape1_iii', 'k_index1_iii', 'k_apply_shape1_iii', 'k_apply_index1_iii'), ('k_shape1_iii', 'k_index1_iii', 'k_shape1_iii_sv', 'k_index1_iii_sv'),
+    ('k_shape1_iii', 'k_index1_iii', 'k_shape1_iii_vec', 'k_index1_iii_vec'), ('k_dshape1_a3', 'k_dindex1_a3', 'k_dshape1_a3_sv', 'k_dindex1_a3'),
+    ('k_shape1_iin', 'k_index1_iin', 'k_shape1_ii', 'k_index1_ii'), ('k_shape1_inn', 'k_index1_inn', 'k_shape1_in', 'k_index1_in')]
+HARNESSES += [
+ dict(name='dyn1', src='harnesses/C05.c', func='h_packed1', kernels=['C05_slice'], unwind=4,
+      bounds=S1 + ' (index::shape_dynamic_slice / dynamic_slice with a one-item std::vector of tuples with None parts (8 patterns + (None,int)), of array<int,3>, of array<int,2>)',
+      quick=[_pat(p, PFXS='k_dshape1_', PFXI='k_dindex1_') for p in ('nnn', 'inn', 'nin', 'iin', 'nni', 'ini', 'nii', 'iii', 'ni')] +
+            [dict(_pat('iii', PFXS='k_dshape1_', PFXI='k_dindex1_'), PAT='a3'), dict(_pat('ii', PFXS='k_dshape1_', PFXI='k_dindex1_'), PAT='a2')],
+      thorough=[_pat(p, 12, PFXS='k_dshape1_', PFXI='k_dindex1_') for p in ('nnn', 'inn', 'nin', 'iin', 'nni', 'ini', 'nii', 'iii', 'ni')]),
+ dict(name='kinds1', src='harnesses/C05.c', func='h_packed1', kernels=['C05_slice'], unwind=4,
+      bounds=S1 + ' (pattern (int,int,int); shape container static_vector<size_t,4> / std::vector; and through the tuple dispatchers apply_shape_slice / apply_slice)',
+      quick=[dict(_pat('iii'), PAT=k) for k in ('iii_sv', 'iii_vec')] + [dict(_pat('iii', PFXS='k_apply_shape1_', PFXI='k_apply_index1_'))]),
+ dict(name='same1', src='harnesses/C05.c', func='h_same1', kernels=['C05_slice'], unwind=4,
+      bounds='differential, NO finding region excluded: two encodings of the same one-axis slice (packed tuple vs std::vector of tuples / array<int,3> / array<int,2>; std::array vs static_vector vs std::vector shape; '
+             'direct vs apply_ dispatcher; two-part vs three-part with None step) give the same extent and source index for n in 1..MAXN, start/stop in [-(n+2),n+2], step in {-3..3}\\{0}, k: all symbolic',
+      quick=[_same(*x) for x in _SAME], thorough=[_same(*x, maxn=12) for x in _SAME]),
+]
+def _big(p, step, **kw):
+    c = _pat(p, STEP=step, **kw); del c['MAXN']
+    # back end per query (measured): SAT (cadical) decides positive steps in 3-20 s; negative steps need an SMT back end
+    c['_backend'] = os.environ.get('C05_BIGBACK') or ('cadical' if step > 0 else 'z3' if p in ('nni', 'iii') else 'cvc5int')
+    return c
+HARNESSES += [
+ dict(name='big1', src='harnesses/C05.c', func='h_big1', kernels=['C05_slice'], unwind=4, timeout=300,
+      bounds='one axis, extent n in 1..2^31-3, start/stop symbolic over [-(n+2), n+2], element position k symbolic; the step is the per-query constant STEP (None/int pattern = PAT); '
+             'back end per query: cadical (positive steps), cvc5 --solve-bv-as-int or z3 (negative steps)',
+      quick=[_big('iii', s) for s in (1, 2, 3, 7, -1, -3)] + [_big('nii', s) for s in (1, 3)] + [_big('ini', s) for s in (1, 3, -1, -2)] + [_big('nni', s) for s in (2, -3)] + [_big(p, 1) for p in ('iin', 'inn', 'nin')],
+      thorough=[_big('iii', s) for s in (5, 16, 1000, 65537, -2, -7)] + [_big('ini', s) for s in (7, -3)]),
+]
+VPATS = ['nnn', 'inn', 'nin', 'iin', 'nni', 'ini', 'nii', 'iii', 'nn', 'ii']
+VFAMS = {2: ['ss', 'is', 'si', 'es', 'se', 'ie', 'ei'], 3: ['ses', 'sis', 'ies', 'sei', 'sss']}
+def _cells(d, e): return ['in_cells.0:%d' % ({2: 16, 3: 27}[d] + 2), 'k_fill_u32.0:%d' % (e**d + 2)]
+HARNESSES += [
+ dict(name='view1', src='harnesses/C05.c', func='h_view1', kernels=['C05_view'], unwind=4,
+      bounds='view::apply_slice on a 1-d hybrid array (capacity 8) with symbolic data; ' + S1,
+      quick=[_pat(p, 6, _unwindset=['in_cells.0:8', 'k_fill_u32.0:8']) for p in VPATS], thorough=[_pat(p, 8, _unwindset=['in_cells.0:10', 'k_fill_u32.0:10']) for p in VPATS]),
+ dict(name='viewfam', src='harnesses/C05.c', func='h_viewfam', kernels=['C05_view'], unwind=6,
+      bounds='view::slice(array, items...) on 2-d (capacity 16) / 3-d (capacity 27) hybrid arrays with symbolic data; family = per-query constant FAM; extents 1..MAXF, slice parts / integers / result index symbolic as in fam',
+      quick=[_fam(d, f, {2: 3, 3: 2}[d], _unwindset=_cells(d, {2: 3, 3: 2}[d])) for d in (2, 3) for f in VFAMS[d]],
+      thorough=[_fam(d, f, {2: 4, 3: 3}[d], _unwindset=_cells(d, {2: 4, 3: 3}[d])) for d in (2, 3) for f in VFAMS[d]]),
+ dict(name='viewdyn', src='harnesses/C05.c', func='h_viewfam', kernels=['C05_view'], unwind=6,
+      bounds='view::apply_slice(array, static_vector of either<int, either<array<int,3>, ellipsis>>) on 2-d / 3-d hybrid arrays with symbolic data; ONE instantiation per dim, item kinds = per-query constant FAM (run-time values of the kernel)',
+      quick=[_fam(d, f, {2: 3, 3: 2}[d], CONSTK=1, _unwindset=_cells(d, {2: 3, 3: 2}[d])) for d in (2, 3) for f in VFAMS[d][:4]],
+      thorough=[_fam(d, f, {2: 4, 3: 3}[d], CONSTK=1, _unwindset=_cells(d, {2: 4, 3: 3}[d])) for d in (2, 3) for f in all_fams(d) if set(f) != {'i'}]),
+]
+for _h in HARNESSES:
+    for _t in ('quick', 'thorough'):
+        for _c in _h.get(_t, []): _c['H_' + _h['func'][2:].upper()] = 1
 OUTSIDE = []
 ASSUMPTIONS = []
 PENDING_FINDINGS = []
